@@ -18,6 +18,18 @@ def oracle_cap(case, impl):
         if m.group(4) != "1":
             return "serveUDP did not return after its socket was closed (after %s transient read failures)" % n
         return None
+    if case.startswith("caplisten "):
+        a = int(case.split(" ")[2])
+        m = re.match(r"max=(\d+) replied=(\d+)/(\d+)$", impl)
+        if not m:
+            return "unexpected harness output: " + impl[:80]
+        if int(m.group(1)) > k:
+            return ("%s queries were processed concurrently with max-inflight-requests=%d on %d listen address(es)"
+                    % (m.group(1), k, a))
+        if int(m.group(1)) < k or m.group(2) != m.group(3):
+            return ("max-inflight-requests=%d on %d listen address(es): %s queries ran concurrently, %s/%s answered"
+                    % (k, a, m.group(1), m.group(2), m.group(3)))
+        return None
     m = re.match(r"max=(\d+) replied=(\d+)/(\d+) probe=(\w+)", impl)
     if not m:
         return "unexpected harness output: " + impl[:80]
@@ -43,7 +55,7 @@ SPEC = dict(
     level_text="The control-flow graphs of serveUDP, serveTCPConn and their handler closures are regenerated from the source on every "
                "run and projected on the inflight semaphore; a kernel-checked certificate shows that EVERY path (any loop count, "
                "return or panic after the deferred function is installed) gives back exactly what it took; storms of every request "
-               "ending against the real proxy with K=2..4 then measure that exactly K queries run concurrently and all are answered.",
+               "ending against the real proxy with K=2..4 (and the real ListenAndServe on 1-3 addresses with as few units as addresses) then measure that exactly K queries run concurrently and all are answered.",
     level_note="Trusted: go/cfg (vendored), the event classifier of /verif/extract, Go channel semantics (a buffered channel of capacity K "
                "blocks the K+1-th send). Handlers are assumed to terminate (C02/C03). Code before the handler's defer (query.New, pool Get) "
                "is assumed not to panic (C02).",
